@@ -86,6 +86,39 @@ theorem forest_extend {c : Cfg} (hc : c.assertions = true) (p : Nat) : ∀ (cs :
       have hw1 := wf_assignParentOf hw c hc x p (if k = 0 then f else .none)
       exact ih _ _ _ hw1 h _ (forest_assignParentOf hw c hc x p _ ho G hG)
 
+theorem assignParentOf_rej_id {s : Store} (hw : WF s) (c : Cfg) (ch p : Nat) (f : Fault)
+    (h : (assignParentOf c s ch p f).2 = .rej) : (assignParentOf c s ch p f).1 = s := by
+  unfold assignParentOf at h ⊢
+  split
+  · rename_i hv; rw [if_pos hv] at h; exact setParent_rej_id hw c ch (some p) f h
+  · rfl
+
+/-- `extend`, whatever its outcome: exactly the members before the first refused one have been moved
+(all of them when the call is accepted) -/
+theorem forest_extend_prefix {c : Cfg} (hc : c.assertions = true) (p : Nat) : ∀ (cs : List Nat) (s : Store)
+    (f : Fault) (k : Nat), WF s → ∀ G : Forest, (forest s).Perm G →
+    ∃ j, j ≤ cs.length ∧ ((extend c s p cs f k).2 = .ok → j = cs.length) ∧
+      (forest (extend c s p cs f k).1).Perm ((cs.take j).foldl (fun G c => Forest.move G c p) G) := by
+  intro cs
+  induction cs with
+  | nil => intro s f k _ G hG; exact ⟨0, Nat.le_refl _, fun _ => rfl, hG⟩
+  | cons x xs ih =>
+    intro s f k hw G hG
+    unfold extend
+    cases ho : (assignParentOf c s x p (if k = 0 then f else .none)).2 with
+    | rej =>
+      simp only [ho]
+      refine ⟨0, Nat.zero_le _, fun h => ?_, ?_⟩
+      · cases h
+      · rw [assignParentOf_rej_id hw c x p _ ho]; exact hG
+    | ok =>
+      simp only [ho]
+      have hw1 := wf_assignParentOf hw c hc x p (if k = 0 then f else .none)
+      obtain ⟨j, hj, hok, hperm⟩ := ih _ (if k = 0 then .none else f) (k - 1) hw1 _
+        (forest_assignParentOf hw c hc x p _ ho G hG)
+      exact ⟨j + 1, by simp only [List.length_cons]; omega,
+        fun h => by simp only [List.length_cons]; rw [hok h], by simpa using hperm⟩
+
 theorem forest_setChildren {s : Store} (hw : WF s) (c : Cfg) (hc : c.assertions = true) (v : Nat) (hv : v < s.n)
     (cs : List Nat) (f : Fault) (h : (setChildren c s v cs f).2 = .ok) (G : Forest) (hG : (forest s).Perm G) :
     (forest (setChildren c s v cs f).1).Perm (Forest.setChildren G v cs) := by
